@@ -517,6 +517,21 @@ def step (line : String) : String :=
           let (bad, seen) := pullFuzz n.toNat (seed.toNat * 7919 + 12345) 0 0
           if seen == 0 then answer "nothing-examined" false else answer s!"mismatches={bad}" (bad == 0)
         | _, _ => "bad-op"
+      else if op == "readvs" then
+        -- Batch.Read and Batch.ReadMessage hand out the values of the same messages
+        let iw := words impl
+        match field iw "msg", field iw "read" with
+        | some a, some b => if a == b then answer impl true else answer s!"msg={a} read={a}" false
+        | _, _ => "bad-op"
+      else if op == "earlyclose" then
+        -- Batch.Close before the end of the batch: Close returned nil ⇒ the Conn is at a response boundary (the next call works)
+        let iw := words impl
+        match field iw "first", field iw "close", field iw "next" with
+        | some f, some c, some n =>
+          if f != "nil" then answer "first=nil" false
+          else if c == "nil" && n != "ok" then answer s!"first=nil close=<error> (or next=ok): Close returned nil but the next call on the Conn gave {n}" false
+          else answer impl true
+        | _, _, _ => "bad-op"
       else if op == "ftrace" then
         match (field ws "L").bind parseLayout, fieldInt ws "first", fieldInt ws "hwm",
               (field ws "T").map (fun t => (t.splitOn ";").map parseFTEv) with
